@@ -620,13 +620,13 @@ boost::optional<ndsize_t> getIndex(const double position, std::vector<double> &t
             }
         }
     } else if (matching == PositionMatch::LessOrEqual && *lower > position) {
-        if (lower - 1 >= ticks.begin()) {
+        if (lower != ticks.begin()) {
             idx = lower - 1 - ticks.begin();
         } else {
             idx = boost::none;
         }
     } else if (matching == PositionMatch::Less && *lower >= position) {
-        if ((lower - 1) >= ticks.begin()) {
+        if (lower != ticks.begin()) {
             idx = lower - 1 - ticks.begin();
         } else {
             idx = boost::none;
